@@ -23,10 +23,10 @@ PROPS: dict[str, dict] = {
     "C12": {"modules": ["vf.h_serial"], "harnesses": ["serial-roundtrip"]},
     "C10": {"modules": ["vf.h_lower"], "harnesses": ["lower-args", "lower-yields", "lower-builder-run"]},
     "C16": {"modules": ["vf.h_presched"], "harnesses": ["presched"]},
-    "C01": {"modules": ["vf.h_ctrl"], "harnesses": ["ctrl-C01"]},
+    "C01": {"modules": ["vf.h_ctrl"], "harnesses": ["ctrl-C01", "act-step"]},
     "C02": {"modules": ["vf.h_ctrl", "vf.h_worker"], "harnesses": ["ctrl-C02", "worker-wakeup", "act-step"]},
-    "C03": {"modules": ["vf.h_ctrl"], "harnesses": ["ctrl-C03", "plan-step"]},
-    "C04": {"modules": ["vf.h_ctrl"], "harnesses": ["ctrl-C04"]},
+    "C03": {"modules": ["vf.h_ctrl"], "harnesses": ["ctrl-C03", "plan-step", "act-step"]},
+    "C04": {"modules": ["vf.h_ctrl"], "harnesses": ["ctrl-C04", "plan-step"]},
     "C17": {"modules": ["vf.h_wire", "vf.h_comms", "vf.h_wire2"], "harnesses": ["shm-wire-smt", "frame-sequences", "wire-pickle-json"]},
     "C08": {"modules": ["vf.h_shm"], "harnesses": ["shm-step", "shm-step-preempt", "shm-server-dispatch", "shm-init"]},
     "C09": {"modules": ["vf.h_shm", "vf.h_shmclient"], "harnesses": ["shm-step-bytes", "shm-evict-liveness", "shm-client-roundtrip"], "cpu_quick": 16 * 600.0},
